@@ -393,6 +393,9 @@ def run(repo, chk):
         def loop_shape(construct):
             return 'C16.E7' if construct.startswith('gen_block[LoopBlock]') else None
         c08.run(repo, Remap(chk, {'C08.L2': loop_shape}))
+        # break / continue leave the innermost loop: the loop record they read is the one pushed last (shared with C02.T4)
+        from . import c02
+        c02.run(repo, Remap(chk, {'C02.T4': lambda c: 'C16.E7' if 'LoopInfo' in c else None}))
     chk.exhaustive = True
     chk.sample({'loop_table': {c: sorted(nm(D.LoopBlock(None, D.stub(D.mk(['NONE', 'BREAK'])), cond,
                                D.CodeBlock((), None, False, EM.NONE)).exit_modes()))
